@@ -188,6 +188,10 @@ def run_shard(spec, ctx):
                     R.expect("%s[%d to %d]" % (S, i, j), rs.slice_(s, i, j), "slice:%s:start %s:end %s" % (k, cls(i, n), cls(j, n)), ("sl", S, i, j))
                     fn = "substr" if k == "str" else "sublist"
                     R.expect("%s(%s, %d, %d)" % (fn, S, i, j), rs.slice_(s, i, j), "%s:start %s:end %s" % (fn, cls(i, n), cls(j, n)), (fn, S, i, j))
+            for st in (r.randint(0, n), r.randint(0, n + 2)):
+                p = (s[r.randint(0, n - 1):][:r.randint(1, 3)]) if k == "str" else r.choice(s)
+                R.expect("find(%s, %s, start = %d)" % (S, src(p), st), rs.find(s, p, st), "find-start:%s:%s" % (k, cls(st, n)), ("finds", S, src(p), st))
+                R.expect("find_last(%s, %s, start = %d)" % (S, src(p), st), rs.find_last(s, p, st), "find_last-start:%s:%s" % (k, cls(st, n)), ("findls", S, src(p), st))
             if k == "str":
                 p = s[r.randint(0, n - 1):][:r.randint(1, 3)]
                 R.expect("find(%s, %s)" % (S, src(p)), rs.find(s, p), "find:str:hit", ("find", S, p))
